@@ -26,6 +26,36 @@ def classify(rep, wl, fault, prob, lines, hdr_len):
     KF-C15-HEADER-POSITION (seek latch in file_io.c; paf_write_header seeks to 0) are repaired, their classes are no longer
     waived -- a `partial-frame` or `prefix` problem is a VIOLATION.  The only bytes the `prefix` clause exempts are those of a torn
     frame (c15lib.torn_regions): a fragment the write call did not report, completed by the caller's next write."""
+    shows its signature."""
+    i, kind, single = fault
+    tr = next((l for l in reversed(lines) if l.startswith("ok trace=")), "")
+    ev = ev_parse(tr[len("ok trace="):]) if tr else []
+    major = (rep.word >> 16) & 0xFFF
+    bw = getattr(rep, "blockwidth", 0)
+    if prob.cat == "partial-frame":
+        # class: a read/write callback transferred a byte count that ends inside a frame (a short answer, or end of file reached
+        # from a position that is not on a frame boundary); sample-granular layouts with >= 2 channels
+        if rep.ch >= 2 and bw > 0 and any(e[0] in "RW" and 0 < e[3] < e[1] and e[3] % bw != 0 for e in ev):
+            return "KF-C15-PARTIAL-FRAME"
+    if prob.cat == "prefix":
+        # class: a psf_fseek failed and the library wrote nevertheless (header writers of every container: seek to 0 / seek back;
+        # the PAF24 block writer), or PAF's header writer -- which does not seek -- ran after a failed header read
+        failed_seek = False
+        fresh_fail = False
+        for k, e in enumerate(ev):
+            if e[0] == "S" and e[4] and e[3] == -1:
+                failed_seek = True
+            if e[0] == "S" and e[3] != -1:
+                fresh_fail = False
+            if e[0] == "S" and e[4] and e[3] == -1:
+                fresh_fail = True
+            if e[0] == "W" and e[3] > 0 and fresh_fail and e[1] in getattr(rep, "payload_sizes", ()):
+                return None     # the CALLER's audio written right after a failed re-seek (vlib/c15extra.py RawRep): not the header-writer class
+            if e[0] == "W" and e[3] > 0 and failed_seek and kind == 3:
+                return "KF-C15-HEADER-POSITION"
+            if e[0] == "W" and e[2] != 0 and e[3] > 0 and major == 0x05 and e[1] == 2048:
+                return "KF-C15-HEADER-POSITION"
+    # (round 4) KF-C15-SCAN-HANG is repaired: a hang of the CAF / SVX chunk scanners is no longer waived
     return None
 
 
@@ -42,12 +72,12 @@ def fault_free(ctx, reps, after_open=False):
     """-> {(rep.name, wl): {kinds, sum, open}} ; fills rep.dataoffset / rep.audio_end"""
     jobs = []
     for r in reps:
-        for wl in ("r", "w", "rw"):
+        for wl in getattr(r, "workloads", ("r", "w", "rw")):
             jobs.append(("%s|%s" % (r.name, wl), r.script(wl, None, peek=True, after_open=after_open, dump_full=after_open)))
     out = ctx.batch(jobs, clean=True, op_timeout=5, retry_timeouts=False)
     FF = {}
     for r in reps:
-        for wl in ("r", "w", "rw"):
+        for wl in getattr(r, "workloads", ("r", "w", "rw")):
             ls = out["%s|%s" % (r.name, wl)]
             pk = [l for l in ls if "dataoffset=" in l]
             dm = [l for l in ls if l.startswith("calls=")]
@@ -58,9 +88,10 @@ def fault_free(ctx, reps, after_open=False):
                 continue            # the format cannot be opened in this mode at all (block codecs in RDWR)
             p = L.kvs(pk[0])
             r.dataoffset[wl] = max(0, int(p["dataoffset"]))
-            if wl == "r":
+            only_rw = "r" not in getattr(r, "workloads", ("r",))     # (vlib/c15extra.py RawRep: the geometry comes from its one workload)
+            if wl == "r" or only_rw:
                 r.blockwidth = int(p["blockwidth"])
-            if wl == "r" and int(p["blockwidth"]) > 0:
+            if (wl == "r" or only_rw) and int(p["blockwidth"]) > 0:
                 r.audio_end = r.dataoffset[wl] + r.frames * int(p["blockwidth"])
             FF[(r.name, wl)] = {"kinds": L.kvs(dm[-1]).get("kinds", ""), "sum": next((x for x in reversed(ls) if x.startswith("len=")), ls[-1]).strip(), "open": op[0].strip()}
             if not after_open:
@@ -108,6 +139,8 @@ def run(ctx):
     if quick:
         l1 = l1[ctx.seed % 2::2] + [x for x in l1 if x.name in ("wav-pcm16", "au-pcm16", "raw-pcm16le", "wav-float")]
         l1 = list({x.name: x for x in l1}.values())
+    from .. import c15extra as _c15extra        # + the rdwr workload through sf_read_raw / sf_write_raw (lean/SfModel/FaultsRaw.lean)
+    l1 = l1 + list({x.name: x for x in _c15extra.l1_raw_reps(quick, ctx.seed)}.values())
     prepare(ctx, l1)
     ff1 = fault_free(ctx, l1, after_open=True)
     jobs = []
@@ -184,7 +217,10 @@ def run(ctx):
 
     # ---------------- stage 3: K-complete enumeration on the implementation ----------------------------------------
     reps = [L.Rep(*r) for r in L.REPS]          # the whole list fits the quick budget (about 15 s); the tiers differ in the L1 set and timeouts
+    from .. import c15extra                      # foreign-but-valid multi-block headers; the rdwr workload through sf_read_raw / sf_write_raw
+    reps += c15extra.reps(quick, ctx.seed)
     prepare(ctx, reps)
+    c15extra.after_prepare(reps)
     FF = fault_free(ctx, reps)
     jobs = []
     meta = {}
